@@ -324,6 +324,9 @@ func newickDrive(args []string) error {
 				n = 1 + r.Intn(200)
 			}
 			root := nwRandTree(r, n, chain)
+			if r.Intn(8) == 0 && ev.Small {
+				root = &newick.Node{} // the bare tree ";": no name, no distance, no children
+			}
 			before := nwFlatten(root)
 			var txt []byte
 			p, _ := catch(func() { txt, _ = root.MarshalText() })
